@@ -215,35 +215,69 @@ def interleave_rules(ctx, rep):
                 ind.append(ph)
         if len(ind) == 1:
             lead_phi = ind[0]
-            # exit tests: switches inside the loop with one successor outside
+            # exit tests: switches inside the loop with one successor outside.  Each must be
+            # one of: the zero test on s[L] (continue on "== 0"), the bound test L < len
+            # (continue on "<"), or s.get(L) (continue on Some) - with that polarity.
             tests = []
             ok_tests = True
-            for b in loop:
+            has_zero_test = False
+            for b in sorted(loop):
                 info = se.term_info.get(b, {})
-                if info.get("k") == "switch":
-                    succ = [info["otherwise"]] + [x[1] for x in info["targets"]]
-                    if any(s not in loop for s in succ):
-                        d = arith.norm(info["discr"], {lead_phi: "L"})
-                        tests.append(d)
-            # recognised tests: Eq(s[L], 0) / Ne(s[L], 0) over the whole array, and Lt(L, len)
-            for d in tests:
-                if d[0] in ("Eq", "Ne") and d[1][0] == "idx" and d[1][2] == ("sym", "L") and d[2] == ("int", 0):
-                    base = d[1][1]
-                    whole = base
-                elif d[0] in ("Lt", "Ge") and d[1] == ("sym", "L"):
+                if info.get("k") != "switch":
+                    continue
+                succ = [info["otherwise"]] + [x[1] for x in info["targets"]]
+                if all(s_ in loop for s_ in succ):
+                    continue
+                raw = strip(info["discr"])
+                tg = dict(info["targets"])
+                stay = lambda t: t in loop
+                if raw[0] == "discr" and util.is_call(raw[1]) and raw[1][1].endswith("<impl [T]>::get"):
+                    # match s.get(L) { Some(..) => .., None => break }
+                    base_, ix_ = raw[1][2]
+                    tests.append("get(L) is Some")
+                    if not (arith.norm(ix_, {lead_phi: "L"}) == ("sym", "L") and 1 in tg and stay(tg[1]) and not any(stay(t_) for v_, t_ in list(tg.items()) + [("else", info["otherwise"])] if v_ != 1)):
+                        ok_tests = False
+                        why = "s.get(..) test does not continue exactly on Some(s[lead])"
+                    elif whole is None:
+                        whole = arith.norm(base_, {lead_phi: "L"})
+                    continue
+                d = arith.norm(info["discr"], {lead_phi: "L"})
+                is_bool = d[0] in ("Eq", "Ne", "Lt", "Ge", "Le", "Gt")
+                t_true, t_false = info["otherwise"], tg.get(0)
+                if d[0] == "idx" and d[2] == ("sym", "L") and list(tg) == [0]:
+                    # switch on the byte itself: 0 -> one way, anything else -> the other
+                    tests.append("s[L] == 0")
+                    has_zero_test = True
+                    whole = d[1]
+                    if not (stay(tg[0]) and not stay(info["otherwise"])):
+                        ok_tests = False
+                        why = "the scan does not continue exactly while the byte is zero"
+                elif d[0] in ("Eq", "Ne") and d[1][0] == "idx" and d[1][2] == ("sym", "L") and d[2] == ("int", 0) and list(tg) == [0]:
+                    tests.append(arith.show(d))
+                    has_zero_test = True
+                    whole = d[1][1]
+                    cont_on_true = d[0] == "Eq"
+                    if not (stay(t_true if cont_on_true else t_false) and not stay(t_false if cont_on_true else t_true)):
+                        ok_tests = False
+                        why = "the scan does not continue exactly while the byte is zero"
+                elif d[0] in ("Lt", "Ge") and d[1] == ("sym", "L") and list(tg) == [0]:
+                    tests.append(arith.show(d))
                     # bound must be the array length (32 / len(s)), not a smaller constant
                     bnd = d[2]
                     if not (bnd == ("int", 32) or bnd[0] == "?" and "len" in bnd[1] or bnd[0] == "len"):
                         ok_tests = False
                         why = "scan is bounded by %s, not by the end of the 32-byte secret" % arith.show(bnd)
+                    cont_on_true = d[0] == "Lt"
+                    if not (stay(t_true if cont_on_true else t_false) and not stay(t_false if cont_on_true else t_true)):
+                        ok_tests = False
+                        why = "the scan does not continue exactly while lead < length"
                 else:
                     ok_tests = False
                     why = "unrecognised exit test %s" % arith.show(d)
-            has_zero_test = any(d[0] in ("Eq", "Ne") for d in tests)
             # assert-based bound checks inside the loop are not exits (they panic: C14)
             good = ok_tests and has_zero_test
             if good:
-                why = "lead counts from 0 in steps of 1 while s[lead] == 0 (exit tests: %s)" % [arith.show(d) for d in tests]
+                why = "lead counts from 0 in steps of 1 while s[lead] == 0 (exit tests: %s)" % tests
         else:
             why = "%d induction variables of the form 0, +1" % len(ind)
     count_form = None
@@ -363,104 +397,137 @@ def interleave_rules(ctx, rep):
         return
     rep.check(canon(ctx, se2, Sv[2][0]) == ("param", 1), "interleave", fn2, "source", "the stripped secret of the parameter is interleaved", "as_equal_slice is not applied to the parameter")
 
-    def chain(t):
-        names = []
-        t = strip(t)
-        while util.is_call(t) and t[2] and t[1] != fn:
-            names.append((t[1].split("::")[-1], tuple(x for x in t[2][1:])))
-            t = strip(t[2][0])
-        return names, t
+    # ---- what every loop does at iteration i (lock-step iterator semantics, rules/loopsem.py)
+    import ranges
+    from rules import loopsem
 
-    want_chains = {
-        "even": [("enumerate", ()), ("step_by", (("int", 2, "usize"),)), ("iter", ())],
-        "odd": [("enumerate", ()), ("step_by", (("int", 2, "usize"),)), ("skip", (("int", 1, "usize"),)), ("iter", ())],
-        "pairs": [("enumerate", ()), ("chunks_exact", (("int", 2, "usize"),))],
-    }
-    found = {}
+    pr = ranges.World(ctx).prover(fn2)
+
+    def lens(base):
+        base = strip(base)
+        if base == Sv:
+            return lambda n: n
+        if base[0] in ("local", "field") and se2.loc_array_len(base) is not None:
+            return lambda n, c=se2.loc_array_len(base): c
+        r = pr.len_range(base, None) if pr is not None else (0, None)
+        if r[0] == r[1]:
+            return lambda n, c=r[0]: c
+        return None
+
+    sem = loopsem.Sem(ctx, se2, lens)
+    EVEN_N = range(0, 33, 2)
+    stmts = []          # (dest base, A, value, count fn)
+    opaque = []
     for lp in loops:
-        if lp["init_call"] is None:
+        r = sem.statements(lp)
+        if r is None:
+            opaque.append(b2.loc(lp["next_bb"]))
             continue
-        names, base = chain(lp["init_call"][2][0])
-        names = [(n, tuple(strip(a) for a in args)) for n, args in names]
-        for tag, wc in want_chains.items():
-            if names == wc and base == Sv:
-                found[tag] = lp
-        if names and names[0][0] == "enumerate" and len(names) > 1 and names[1][0] == "zip":
-            found["zip"] = (lp, names, base)
+        for d, A, v in r[0]:
+            if d is None:
+                opaque.append(b2.loc(lp["next_bb"]))
+            else:
+                stmts.append((d, A, v, r[1]))
+    if opaque:
+        rep.undecided("interleave", fn2, "shape", "a loop of the interleave is not a lock-step traversal the rule understands (%s)" % opaque[0], b2.loc())
+        return
+
+    def local_of(loc):
+        while loc[0] in ("field", "index", "cindex", "subslice"):
+            loc = loc[1]
+        return loc if loc[0] == "local" else None
+
     halves = {}
-    if "pairs" in found:
-        # one pass over consecutive pairs: E[i] = pair[0], F[i] = pair[1]
-        lp = found["pairs"]
-        item = strip(lp["elem"])
-        sts = {}
-        for (bi, si), (loc, v) in se2.assigns.items():
-            if loc[0] == "index" and strip(loc[2]) == ("field", item, 0) and loc[1][0] == "local":
-                sv = strip(v)
-                if sv[0] in ("index", "cindex") and sv[1] == ("field", item, 1):
-                    k = sv[2] if sv[0] == "cindex" else (sv[2][1] if sv[2][0] == "int" else None)
-                    sts[k] = loc[1]
-        good = set(sts) == {0, 1} and sts[0] != sts[1]
-        rep.check(good, "interleave", fn2, "even-bytes", "even-indexed bytes: E[i] = S[2i] (pairs of consecutive bytes)", "the even-indexed bytes are not collected as E[i] = pair[0] over S.chunks_exact(2)", b2.loc())
-        rep.check(good, "interleave", fn2, "odd-bytes", "odd-indexed bytes: F[i] = S[2i+1]", "the odd-indexed bytes are not collected as F[i] = pair[1] over S.chunks_exact(2)", b2.loc())
+    for tag, off in (("even", 0), ("odd", 1)):
+        hits = [(d, A, c) for d, A, v, c in stmts if v[0] == "at" and v[1] == Sv and v[2] == (2, off)]
+        good = len(hits) == 1 and hits[0][1] == (1, 0) and local_of(hits[0][0]) == hits[0][0]
+        why = "%d loops store S[2i+%d]" % (len(hits), off)
         if good:
-            halves = {"even": sts[0], "odd": sts[1]}
-    else:
-        for tag in ("even", "odd"):
-            lp = found.get(tag)
-            good = False
-            if lp is not None:
-                item = strip(lp["elem"])
-                stores = [(loc, v) for (bi, si), (loc, v) in se2.assigns.items() if loc[0] == "index" and strip(loc[2]) == ("field", item, 0)]
-                good = len(stores) == 1 and strip(stores[0][1]) == ("field", item, 1)
-                if good:
-                    halves[tag] = stores[0][0][1]
-            rep.check(good, "interleave", fn2, tag + "-bytes", "%s-indexed bytes of the stripped secret are collected in order" % tag, "the %s-indexed bytes are not collected by S.iter()%s.step_by(2).enumerate() into position i" % (tag, ".skip(1)" if tag == "odd" else ""), b2.loc())
-    # the two hashes over exactly len/2 bytes
-    hashes = []
+            d, A, c = hits[0]
+            # every position below len/2 is written: count(n) >= n/2 for every even n <= 32
+            short = [n for n in EVEN_N if c(n) < n // 2]
+            others = [x for x in stmts if x[0] == d and not (x[2][0] == "at" and x[2][1] == Sv and x[2][2] == (2, off))]
+            good = not short and not others
+            why = "the loop stops after %d items for a %d-byte secret" % (c(short[0]), short[0]) if short else ("other stores into the same array" if others else "")
+            if good:
+                halves[tag] = d
+        rep.check(good, "interleave", fn2, tag + "-bytes", "%s-indexed bytes: %s[i] = S[2i+%d] for every i < len/2" % (tag, "EF"[off], off), "the %s-indexed bytes of the stripped secret are not collected in order into one array (X[i] = S[2i+%d] for all i < len/2): %s" % (tag, off, why), b2.loc())
+    if len(halves) == 2 and halves["even"] == halves["odd"]:
+        rep.violation("interleave", fn2, "halves-distinct", "even and odd bytes are collected into the same array", b2.loc())
+
+    # ---- the two hashes over exactly len/2 bytes of the respective half
+    def num_fn(t):
+        t = util.numnorm(t)
+        if t[0] == "int":
+            return lambda n, c=t[1]: c
+        if t[0] == "cast":
+            return num_fn(t[2])
+        if t[0] == "len":
+            return lens(t[1])
+        if t[0] == "binop" and t[1] in ("Div", "Add", "Sub", "Mul", "Shr"):
+            a, b = num_fn(t[2]), num_fn(t[3])
+            if a is None or b is None:
+                return None
+            op = t[1]
+            return lambda n: {"Div": lambda x, y: x // y if y else 0, "Add": lambda x, y: x + y, "Sub": lambda x, y: x - y, "Mul": lambda x, y: x * y, "Shr": lambda x, y: x >> y}[op](a(n), b(n))
+        if util.is_call(t) and t[1].endswith("ExactSizeIterator::len"):
+            return sem.count_of(t[2][0])
+        if util.is_call(t) and t[1] in util.LEN_CALLS:
+            return lens(t[2][0])
+        return None
+
+    digests = {}
+    n_dig = 0
     for bb, i in se2.term_info.items():
-        if i.get("k") == "call" and i["name"] in util.DIGEST_FINAL:
-            b = util.bexpr(ctx, se2, i["term"])
-            hashes.append((bb, b, i))
-    half_ok = 0
-    for bb, b, i in hashes:
-        t = strip(i["term"])
-        # chain_update(new(), &X[..S.len()/2])
-        ins = []
-        h = t[2][0]
-        while util.is_call(h) and h[1] in util.CHAIN_UPDATE:
-            ins.append(strip(h[2][1]))
-            h = h[2][0]
-        if len(ins) == 1 and util.is_call(ins[0]) and ins[0][1].endswith("::index"):
-            rng = ins[0][2][1]
-            if rng[0] == "agg" and rng[2] == "std::ops::RangeTo":
-                end = util.numnorm(rng[4][0])
-                if end[0] == "binop" and end[1] == "Div" and end[3][:2] == ("int", 2) and end[2][0] == "len" and end[2][1] == Sv:
-                    half_ok += 1
-    rep.check(len(hashes) == 2 and half_ok == 2, "interleave", fn2, "two-half-hashes", "two SHA-1 digests, each over the first len/2 collected bytes", "the two half hashes are not SHA1(E[..len/2]) and SHA1(F[..len/2]) (%d digests, %d over len/2)" % (len(hashes), half_ok), b2.loc())
-    z = found.get("zip")
+        if not (i.get("k") == "call" and (i["name"] in util.DIGEST_FINAL or i["name"] == "<D as digest::Digest>::digest")):
+            continue
+        n_dig += 1
+        b = util.bexpr(ctx, se2, i["term"])
+        if not (b[0] == "H" and len(b[1]) == 1):
+            continue
+        # the single input must be  X[..half]  with X one of the two arrays
+        for t in walk(strip(i["term"])):
+            if util.is_call(t) and t[1].endswith("::index") and len(t[2]) == 2 and strip(t[2][1])[0] == "agg" and strip(t[2][1])[2] in ("std::ops::RangeTo", "std::ops::Range"):
+                rng = strip(t[2][1])
+                la = se2.term_info.get(t[3][1], {}).get("locargs", (("?",),))[0]
+                X = la[1] if la[0] == "ref" else None
+                lo_ok = rng[2] == "std::ops::RangeTo" or (loopsem.const_usize(rng[4][0]) == 0)
+                hf = num_fn(rng[4][-1])
+                if X is not None and lo_ok and hf is not None and all(hf(n) == n // 2 for n in EVEN_N):
+                    for tag, d in halves.items():
+                        if d == X:
+                            digests[tag] = strip(i["term"])
+    rep.check(n_dig == 2 and set(digests) == {"even", "odd"}, "interleave", fn2, "two-half-hashes", "G = SHA1(E[..len/2]), H = SHA1(F[..len/2])", "the two half hashes are not SHA1(E[..len/2]) and SHA1(F[..len/2]) (%d digests, recognised over %s)" % (n_dig, sorted(digests)), b2.loc())
+
+    # ---- K[2i] = G[i], K[2i+1] = H[i] for the 20 digest positions, into the array that is returned
     good = False
-    if z is not None:
-        lp, names, base = z
-        item = strip(lp["elem"])
-        idx = ("field", item, 0)
-        pair = ("field", item, 1)
-        env = {idx: "i"}
-        st = {}
-        for (bi, si), (loc, v) in se2.assigns.items():
-            if loc[0] == "index" and loc[1][0] == "local" and idx in set(walk(strip(loc[2]))):
-                st[arith.norm(loc[2], env)] = strip(v)
-        want0 = ("mul", ("sym", "i"), ("int", 2))
-        want1 = ("add", ("mul", ("sym", "i"), ("int", 2)), ("int", 1))
-        good = set(st) == {want0, want1} and st[want0] == ("field", pair, 0) and st[want1] == ("field", pair, 1)
-        # zip(G.iter(), H.iter()) with G the even hash and H the odd hash
-        if good:
-            za = strip(lp["init_call"][2][0])
-            zc = strip(za[2][0])
-            g_it, h_it = strip(zc[2][0]), strip(zc[2][1])
-            g_src = util.bexpr(ctx, se2, g_it[2][0]) if util.is_call(g_it) else None
-            h_src = util.bexpr(ctx, se2, h_it[2][0]) if util.is_call(h_it) else None
-            good = g_src is not None and h_src is not None and g_src[0] == "H" and h_src[0] == "H" and g_src != h_src
-    rep.check(good, "interleave", fn2, "interleave-output", "K[2i] = G[i], K[2i+1] = H[i] over the 20 digest positions", "the two digests are not interleaved as K[2i] = G[i], K[2i+1] = H[i]", b2.loc())
+    why = "no loop writes the digests alternately"
+    if set(digests) == {"even", "odd"}:
+        def is_dig(v, tag):
+            if v[0] != "at" or v[2] != (1, 0):
+                return False
+            x = v[1]
+            while util.is_call(x) and (x[1] in util.IDENT_CALLS or "deref" in x[1].lower()):
+                x = strip(x[2][0])
+            return x == digests[tag]
+        ev = [(d, A, c) for d, A, v, c in stmts if is_dig(v, "even")]
+        od = [(d, A, c) for d, A, v, c in stmts if is_dig(v, "odd")]
+        if len(ev) == 1 and len(od) == 1 and ev[0][0] == od[0][0] and ev[0][1] == (2, 0) and od[0][1] == (2, 1):
+            R = ev[0][0]
+            cnt = ev[0][2]
+            short = [n for n in EVEN_N if min(cnt(n), od[0][2](n)) < 20]
+            others = [x for x in stmts if x[0] == R and not (is_dig(x[2], "even") or is_dig(x[2], "odd"))]
+            rty = se2.loc_ty(R) if local_of(R) == R else None
+            why = "only %d positions are written" % cnt(short[0]) if short else ("other stores into the result" if others else "")
+            good = not short and not others and rty is not None and rty.k == "array" and rty.len == 40
+            if good:
+                # the returned key is built from that array
+                good = False
+                why = "the interleaved array is not what SessionKey::from_le_bytes receives"
+                fin = list(se2.final_states.values())
+                rv = canon(ctx, se2, se2.ret)
+                good = bool(fin) and all(strip(se2.read(st, R)) == rv for st in fin)
+    rep.check(good, "interleave", fn2, "interleave-output", "K[2i] = G[i], K[2i+1] = H[i] over the 20 digest positions", "the two digests are not interleaved as K[2i] = G[i], K[2i+1] = H[i]: " + why, b2.loc())
 
 
 # ----------------------------------------------------------------------------- main
@@ -570,6 +637,39 @@ def transcripts(ctx, rep):
                 why = "output byte is %s" % show(v, maxdepth=3)
         else:
             why = "%d stores to the output array per iteration" % len(stores)
+    if len(hs) == 2 and len(hn) == 1 and len(hg) == 1 and len(loops) == 0:
+        # the output written out element by element (core::array::from_fn or a literal)
+        r = canon(ctx, se, se.ret)
+        hset = {canon(ctx, se, hn[0][2]), canon(ctx, se, hg[0][2])}
+
+        def at(x):
+            x = strip(x)
+            if x[0] == "cindex" and not x[3]:
+                return peel(x[1]), x[2]
+            if x[0] == "index" and strip(x[2])[0] == "int":
+                return peel(x[1]), strip(x[2])[1]
+            if util.is_call(x) and x[1].endswith("::index") and strip(x[2][1])[0] == "int":
+                return peel(x[2][0]), strip(x[2][1])[1]
+            return None, None
+
+        if r[0] == "agg" and r[1] == "array" and len(r[4]) == 20:
+            good = True
+            for k_, v in enumerate(r[4]):
+                v = strip(v)
+                ops = [v[2], v[3]] if v[0] == "binop" and v[1] == "BitXor" else ([v[2][0], v[2][1]] if util.is_call(v) and v[1].endswith("::bitxor") else None)
+                if ops is None:
+                    good = False
+                    why = "output byte %d is %s" % (k_, show(v, maxdepth=3))
+                    break
+                o1, o2 = at(ops[0]), at(ops[1])
+                if not ({o1[0], o2[0]} == hset and o1[1] == o2[1] == k_):
+                    good = False
+                    why = "output byte %d does not xor position %d of the two digests" % (k_, k_)
+                    break
+            if good:
+                why = "xor[k] = H(N_le)[k] ^ H([g])[k] for every position k of the 20-byte digests (element by element)"
+        else:
+            why = "no loop and the result is not a 20-element array"
     rep.check(good, "transcript", fn, "xor-of-hashes", why, "xor hash is not the element-wise xor of SHA1(N as 32 LE bytes) and SHA1([g]): " + why, body.loc())
 
 
